@@ -191,6 +191,51 @@ def h_entry(eng):
         eng.check(ok, "values-in-order", note=f"cube values {toks} for DX values {vals}")
 
 
+def h_written_atoms(eng, ws, kc):
+    """the PQR file pdb2pqr itself writes (real Atom.get_pqr_string + print_pqr, default and --whitespace layout, with and
+    without chain column) -> real read_pqr -> real write_cube, with the serial and the residue number symbolic (negative
+    numbers included, within the field widths): the atom is listed, once (round 6: a reader that does not take "-2" for a
+    residue number dropped the atom silently)"""
+    from pdb2pqr import io, main, structures
+
+    from . import c08
+
+    atom = structures.Atom(type_="ATOM" if eng.flag("atom_record") else "HETATM")
+    m = dict(c08.DEFAULTS)
+    m["serial"] = eng.int("serial", 1, 99999)
+    m["res_seq"] = eng.int("res_seq", -999 if not kc else -99, 9999 if not kc else 999)
+    atom.serial, atom.name, atom.res_name = m["serial"], m["name"], m["res_name"]
+    atom.chain_id, atom.res_seq, atom.ins_code = m["chain"], m["res_seq"], m["ins"]
+    atom.x, atom.y, atom.z, atom.ffcharge, atom.radius = m["x"], m["y"], m["z"], m["charge"], m["radius"]
+
+    class Args:
+        output_pqr = "out.pqr"
+        whitespace = ws
+
+    sink = []
+    with patched(*c08._patches(eng), *(builtin_shims(io, ("int", "float")) if eng.symbolic else []), (main, "open", lambda *a, **k: c08._File(sink))):
+        line = atom.get_pqr_string(chainflag=kc) + "\n"
+        main.print_pqr(Args, ["REMARK   1 PQR file generated by PDB2PQR\n", line, "TER\n", "END"], "", None, False)
+        if strs.leaked(sink):
+            raise core.Inconclusive("a C-level string routine bypassed the layout-string model in the writer")
+        try:
+            atoms = io.read_pqr(iter(sink))
+        except (ValueError, IndexError) as e:
+            eng.check(False, "own-output-readable", note=f"read_pqr fails on pdb2pqr's own output: {type(e).__name__} {str(e)[:60]} (whitespace {ws}, chain column {kc})")
+            return
+        eng.check(len(atoms) == 1, "written-atom-read-back", note=f"read_pqr returned {len(atoms)} atoms for the one written (whitespace {ws}, chain column {kc})")
+        if len(atoms) != 1:
+            return
+        eng.check(And(atoms[0].res_seq == m["res_seq"], atoms[0].serial == m["serial"]), "written-atom-numbers", note=f"serial / residue number read back differ from those written (whitespace {ws}, chain column {kc})")
+    dx = ["object 1 class gridpositions counts 1 1 2\n", "origin 0.0 0.0 0.0\n", "delta 1.0 0.0 0.0\n", "delta 0.0 1.0 0.0\n", "delta 0.0 0.0 1.0\n", "object 2 class gridconnections counts 1 1 2\n", "object 3 class array type double rank 0 items 2 data follows\n", "1.5 2.5\n", 'attribute "dep" string "positions"\n']
+    out_sink = _Sink()
+    with patched(*(rewrite.function_patches(io, "write_cube") if eng.symbolic else [])):
+        io.write_cube(out_sink, io.read_dx(iter(dx)), atoms)
+    out = "".join(str(p) for p in out_sink.parts).split("\n")
+    head = out[2].split()
+    eng.check(len(head) == 4 and int(head[0]) == 1, "atom-count", note=f"cube header announces {head[0] if head else '?'} atoms for one PQR atom")
+
+
 def h_atoms(eng, nlines):
     """read_pqr -> write_cube: every ATOM / HETATM line of the PQR file, wherever it stands (after TER / END /
     REMARK / blank lines, e.g. concatenated files), is listed exactly once, in order"""
@@ -225,6 +270,9 @@ def obligations(tier):
         for natoms in (0, 2):
             obs.append(Obligation(f"convert-header-{focus[0]}-atoms{natoms}", h_convert, dict(n=7, vpl=3, focus=focus, natoms=natoms, comments=True), group="convert", time_cap=1500))
     obs.append(Obligation("pqr-atoms-n3" if tier == "quick" else "pqr-atoms-n4", h_atoms, dict(nlines=3 if tier == "quick" else 4), group="atoms", time_cap=1200, max_paths=20000))
+    for ws in (False, True):
+        for kc in (False, True):
+            obs.append(Obligation(f"written-atoms-{'ws' if ws else 'fixed'}-{'kc' if kc else 'nokc'}", h_written_atoms, dict(ws=ws, kc=kc), group="atoms", time_cap=1200, max_paths=20000))
     obs.append(Obligation("entry-point-real-files", h_entry, {}, group="entry", time_cap=1200))
     for n1, n2 in ((5, 7),) if tier == "quick" else ((5, 7), (7, 5), (0, 6), (6, 0), (13, 13)):
         obs.append(Obligation(f"two-conversions-n{n1}-then-n{n2}", h_two_conversions, dict(n1=n1, n2=n2), group="two-conversions", time_cap=1200))
